@@ -328,7 +328,7 @@ def work(shard, seed, tier):
         from vp.fuzz.fuzz_http import run_campaign
         run_campaign(acc, shard["target"], shard["seconds"], seed, max_len=shard["max_len"])
         return acc
-    n = 200 if tier == "quick" else 17000
+    n = 200 if tier == "quick" else 12000
     strat = server_case() if shard["scene"] == "server" else client_case()
 
     def execute(case):
